@@ -164,7 +164,7 @@ class Check:
         r = sh(["lake", "env", "lean", audit], cwd=LEAN)
         out = r.stdout + r.stderr
         bad, seen, axioms_used = [], 0, set()
-        for mm in re.finditer(r"'([^']+)' (does not depend on any axioms|depends on axioms: \[([^\]]*)\])", out, re.S):
+        for mm in re.finditer(r"'(\S+)' (does not depend on any axioms|depends on axioms: \[([^\]]*)\])", out, re.S):
             seen += 1
             axs = set(a.strip() for a in (mm.group(3) or "").replace("\n", " ").split(",") if a.strip())
             axioms_used |= axs
@@ -395,7 +395,7 @@ class Check:
                           keep_head=1, what="", known_key=None):
         """Shrink, classify, write the replay file and record a violation."""
         small = self.shrink(exe, component, history, keep_head=keep_head,
-                            want_kind=("api" if kind == "api" else None), impl_args=impl_args, model_args=model_args, env=env)
+                            want_kind=("api" if kind in ("api", "crash") else None), impl_args=impl_args, model_args=model_args, env=env)
         d = self.diverges(exe, component, small, impl_args, model_args, env)
         if d is None:
             small = history
